@@ -336,7 +336,7 @@ pub fn run(ctx: &Ctx) -> i32 {
     finish(
         ctx,
         parts,
-        "syntactically valid programs in a random layout (with or without comments, comments in any gap) plus a re-layout of the same tokens and comments with other whitespace, two option sets (tabs; spaces 0..8); checks: format(format(x)) is null, both layouts give the same text, an edit is never returned when the text is unchanged, every line is indented by a whole number of the requested unit, lines after `{` are one unit deeper, outputs under two options differ only in the unit (the second option set is requested directly after the first on the unchanged document); real binary: six formatting requests on one document under alternating option sets and across a full-text change, each answered like the same request on a fresh in-process server; non-trivial = nesting depth >= 2 and options other than 4 spaces; distinct = distinct (text, options); evaluations = formatting requests",
+        "syntactically valid programs in a random layout (with or without comments, comments in any gap) plus a re-layout of the same tokens and comments with other whitespace, two option sets (tabs; spaces 0..8, 10, 16, 33); checks: format(format(x)) is null, both layouts give the same text, an edit is never returned when the text is unchanged, every line is indented by a whole number of the requested unit, lines after `{` are one unit deeper, outputs under two options differ only in the unit (the second option set is requested directly after the first on the unchanged document); real binary: six formatting requests on one document under alternating option sets and across a full-text change, each answered like the same request on a fresh in-process server; non-trivial = nesting depth >= 2 and options other than 4 spaces; distinct = distinct (text, options); evaluations = formatting requests",
         &["with tab size 0 the unit is empty: then the check is that no line is indented and that the contents equal those under the other option"],
         json!({}),
     )
